@@ -28,7 +28,7 @@ def handle (s : DState) (line0 : String) : DState :=
       { s with acc := a, whB := h }
     else
       -- consecutive mini-histories of a search keep referring to the log of the source history
-      let prev := if s.wh.srcOf.isSome then { s.wh with liqLog := s.wh.baseLog } else s.wh
+      let prev := if s.wh.srcOf.isSome then { s.wh with liqLog := s.wh.baseLog, tradeLog := s.wh.baseTrade } else s.wh
       let (a, h) := handleWCfg acc prev kv line
       { s with acc := a, wh := h, twinA := none, twinDiverged := false }
   | "TX" =>
